@@ -198,6 +198,18 @@ def gen_atomistic(rng, n_target, rich=True, hyper=(), explicit_h=False):
     return mol
 
 
+def disjoint_union(mols):
+    """Several molecules in one system (a salt, a mixture): components never share a bond."""
+    out = Mol(mols[0].kind)
+    for mol in mols:
+        offset = len(out.atoms)
+        for atom in mol.atoms:
+            out.add_atom(**atom)
+        for (i, j), order in mol.bonds.items():
+            out.add_bond(i + offset, j + offset, order)
+    return out
+
+
 def gen_coarse(rng, n_target):
     mol = Mol("coarse")
     names = rng.sample(BEAD_NAMES, k=rng.randint(2, 6))
@@ -408,12 +420,17 @@ def _atom_text(atom):
     weight = ""
     if atom.get("w") is not None:
         weight = (";%s" if atom.get("wpos", True) else ";w=%s") % atom["w"]
+    # a bracket atom may state its hydrogen count ([CH2;0.5], [CH], [NH3+]); the count is what the atom has
+    # when every descriptor written on it is used
+    hcount = ""
+    if atom.get("hwrite") is not None and atom["hwrite"] > 0:
+        hcount = "H" if atom["hwrite"] == 1 else "H%d" % atom["hwrite"]
     if atom["charge"] == 1:
-        return "[%s+%s]" % (atom["el"], weight)
+        return "[%s%s+%s]" % (atom["el"], hcount, weight)
     if atom["charge"] == -1:
-        return "[%s-%s]" % (atom["el"], weight)
-    if weight:
-        return "[%s%s]" % (atom["el"], weight)
+        return "[%s%s-%s]" % (atom["el"], hcount, weight)
+    if weight or atom.get("hwrite") is not None:
+        return "[%s%s%s]" % (atom["el"], hcount, weight)
     return atom["el"]
 
 
@@ -589,11 +606,16 @@ def expected_hcounts(mol):
     return out
 
 
-def build_item(rng, kind=None, size=None, n_leaves=None, mid_levels=None, weights=False, hyper=(), explicit_h=False):
+def build_item(rng, kind=None, size=None, n_leaves=None, mid_levels=None, weights=False, hyper=(), explicit_h=False,
+               components=1):
     """Generate one workload item (plain data, JSON-able)."""
     kind = kind or ("atomistic" if rng.random() < 0.7 else "coarse")
     size = size or rng.randint(3, 26)
-    if kind == "atomistic":
+    if components > 1:
+        parts = [gen_atomistic(rng, max(2, size // components), hyper=hyper, explicit_h=explicit_h) if kind == "atomistic"
+                 else gen_coarse(rng, max(2, size // components)) for _ in range(components)]
+        mol = disjoint_union(parts)
+    elif kind == "atomistic":
         mol = gen_atomistic(rng, size, hyper=hyper, explicit_h=explicit_h)
         if weights:
             for atom in mol.atoms:
@@ -602,6 +624,10 @@ def build_item(rng, kind=None, size=None, n_leaves=None, mid_levels=None, weight
                     atom["wpos"] = rng.random() < 0.7
     else:
         mol = gen_coarse(rng, size)
+    if kind == "atomistic" and rng.random() < 0.3:
+        for i, atom in enumerate(mol.atoms):
+            if atom["el"] != "H" and not atom["arom"] and (atom.get("w") is not None or rng.random() < 0.15) and rng.random() < 0.6:
+                atom["hwrite"] = mol.hfill(i)
     n_leaves = n_leaves or rng.randint(1, min(8, max(1, len(mol.atoms) // 2 + 1)))
     mid_levels = rng.choice([0, 1, 1, 2, 2, 3]) if mid_levels is None else mid_levels
     levels, agroup = build_hierarchy(rng, mol, n_leaves, mid_levels)
@@ -677,13 +703,44 @@ def build_item(rng, kind=None, size=None, n_leaves=None, mid_levels=None, weight
         return "{" + ",".join("#%s=%s" % defs[k] for k in idx) + "}"
 
     def graph_text(level):
+        """Base graph text; a disconnected graph is written component by component, joined by '.', which the
+        reader keeps as an edge of order 0 between the last node written and the first node of the next part."""
         nodes = list(range(len(level.names)))
-        text, appearance = write_graph_text(rng, nodes, {x: "[#%s]" % level.names[x] for x in nodes},
-                                            level.edges, {}, "cg", allow_leading=False)
-        return "{" + text + "}", appearance
+        adjacency = defaultdict(set)
+        for (a, b) in level.edges:
+            adjacency[a].add(b)
+            adjacency[b].add(a)
+        seen = set()
+        comps = []
+        for start in nodes:
+            if start in seen:
+                continue
+            comp = []
+            stack = [start]
+            seen.add(start)
+            while stack:
+                x = stack.pop()
+                comp.append(x)
+                for y in sorted(adjacency[x]):
+                    if y not in seen:
+                        seen.add(y)
+                        stack.append(y)
+            comps.append(sorted(comp))
+        texts = []
+        appearance = []
+        zero_edges = []
+        for comp in comps:
+            sub_edges = {e: o for e, o in level.edges.items() if e[0] in comp}
+            text, app = write_graph_text(rng, comp, {x: "[#%s]" % level.names[x] for x in comp},
+                                         sub_edges, {}, "cg", allow_leading=False)
+            if appearance:
+                zero_edges.append([appearance[-1], app[0], 0])
+            texts.append(text)
+            appearance += app
+        return "{" + ".".join(texts) + "}", appearance, zero_edges
 
-    base_text, base_appearance = graph_text(levels[0])
-    flat_base_text, flat_appearance = graph_text(leaf)
+    base_text, base_appearance, base_zero = graph_text(levels[0])
+    flat_base_text, flat_appearance, flat_zero = graph_text(leaf)
     block_texts = [block_text(defs) for defs in blocks]
     perms = []
     for defs in blocks:
@@ -716,6 +773,9 @@ def build_item(rng, kind=None, size=None, n_leaves=None, mid_levels=None, weight
                     "members": lvl.members} for lvl in levels],
         "base_appearance": base_appearance,
         "flat_appearance": flat_appearance,
+        "base_zero_edges": base_zero,
+        "flat_zero_edges": flat_zero,
+        "components": components,
         "leaf_defs": [{"name": name, "text": text,
                        "atoms": leaf_appearance[lid],
                        "descs": {str(pos): ["%s%s%d" % d for d in descs[a]]
@@ -796,8 +856,29 @@ def build_repeat_item(rng):
     }
 
 
+# curated multi-level strings with their flattened two-level form (multi-level vs flattened is judged)
+CURATED_WITH_FLAT = [
+    # the expansion operator at the end of an intermediate definition, as in the resolver's own docstring
+    ("{[#B1]}.{#B1=[#PEO]|4}.{#PEO=[>]COC[<]}", "{[#PEO]|4}.{#PEO=[>]COC[<]}", True),
+    ("{[#B1][#B2]}.{#B1=[<][#PEO]|3,#B2=[>][#PE]|12}.{#PEO=[>]COC[<],#PE=[>]CC[<]}",
+     "{[#PEO]([#PEO][#PEO])[#PE]|12}.{#PEO=[>]COC[<],#PE=[>]CC[<]}", True),
+    ("{[#Z][#W]}.{#Z=[#X][#Y][>],#W=[<][#V]}.{#X=[$][#a][#b]|5,#Y=[$][<][#c]|11,#V=[>][#v]|2}",
+     "{[#X][#Y][#V]}.{#X=[$][#a][#b]|5,#Y=[$][<][#c]|11,#V=[>][#v]|2}", False),
+    # two molecules in one system, several levels: the '.' sits between nodes of different next-level fragments
+    ("{[#P].[#Q]}.{#P=[#a][#b],#Q=[#c][#d]}.{#a=CC[$],#b=[$]O,#c=NC[$],#d=[$]CF}", "{[#a][#b].[#c][#d]}.{#a=CC[$],#b=[$]O,#c=NC[$],#d=[$]CF}", True),
+    ("{[#P][#R].[#Q]}.{#P=[#a][#b][>],#R=[<][#e],#Q=[#c]=[#d]}.{#a=[#a1][#a2][$],#b=[$][#b1][>],#e=[<][#e1],#c=[#c1][>],#d=[<][#d1][#d2]}",
+     "{[#a][#b][#e].[#c]=[#d]}.{#a=[#a1][#a2][$],#b=[$][#b1][>],#e=[<][#e1],#c=[#c1][>],#d=[<][#d1][#d2]}", False),
+]
+
+
 def build_curated_item(rng):
     import re
+    if rng.random() < 0.25:
+        text, flat, last_all_atom = rng.choice(CURATED_WITH_FLAT)
+        parts = re.findall(r"\{[^\}]+\}", text)
+        return {"family": "curated", "kind": "atomistic" if last_all_atom else "coarse", "last_all_atom": last_all_atom,
+                "n_levels": len(parts) - 1, "base": parts[0], "blocks": parts[1:], "perm_blocks": parts[1:],
+                "multi": text, "flat": flat, "composition": True, "constructed": False, "shared_atoms": False}
     text, last_all_atom, shared = rng.choice(CURATED)
     parts = re.findall(r"\{[^\}]+\}", text)
     perm_blocks = []
